@@ -90,6 +90,9 @@ type Program struct {
 	StopOnSendErr bool
 	// Retain keeps references (no clones) to everything received.
 	Retain bool
+	// OnUnaryRequest, if set, is called by the unary handler with the very
+	// request object it was given, before the steps run.
+	OnUnaryRequest func(ctx context.Context, req *connect.Request[Msg])
 }
 
 // HLog is what the handler side observed.
@@ -397,6 +400,11 @@ func Handlers(reg *Registry, opts ...connect.HandlerOption) map[Kind]*connect.Ha
 	out[Unary] = connect.NewUnaryHandler(Unary.Path(), func(ctx context.Context, req *connect.Request[Msg]) (*connect.Response[Msg], error) {
 		c := reg.lookup(req.Header())
 		u := &uconn{req: req, hdr: make(http.Header), trl: make(http.Header)}
+		if c.Prog != nil && c.Prog.OnUnaryRequest != nil {
+			// (a gateway-style handler: it hands the request it received on to
+			// another client before doing anything else)
+			c.Prog.OnUnaryRequest(ctx, req)
+		}
 		if err := c.run(ctx, Unary, req.Spec(), u); err != nil {
 			return nil, err
 		}
@@ -642,16 +650,16 @@ type CLog struct {
 	// TrailerPost: the response trailers as seen after three more Receive
 	// calls past the end of a bidi stream (nil for the other kinds).
 	TrailerPost http.Header
-	Kind      Kind
-	Msgs      []*Msg // clones at receipt
-	HolderSum uint64 // read from the reused holder without cloning
-	Err       error  // terminal error (nil = clean end)
-	SendErrs  []error
-	Header    http.Header
-	Trailer   http.Header
-	CloseErr  error
-	Sent      int
-	PostEnd   []error // results of Receive calls made after the stream had ended (bidi)
+	Kind        Kind
+	Msgs        []*Msg // clones at receipt
+	HolderSum   uint64 // read from the reused holder without cloning
+	Err         error  // terminal error (nil = clean end)
+	SendErrs    []error
+	Header      http.Header
+	Trailer     http.Header
+	CloseErr    error
+	Sent        int
+	PostEnd     []error // results of Receive calls made after the stream had ended (bidi)
 }
 
 // Do runs the canonical client program for a kind: send everything, close the
